@@ -78,6 +78,18 @@ WHY.update({
 })
 
 
+WHY.update({
+ "C02-9": "the generator's foreign directives never ended in the name of a built-in attribute",
+ "C02-10": "no module named like a primitive next to an *alias* of that primitive (C01's keyword-names family has such modules, but judges crashes only)",
+ "C03-10": "C03 observes bindings in the AST; the change is in the request converter (C08 caught it at once)",
+ "C04-10": "`B()` under an underlying type is outside the check by a stated assumption: the statement says 'no fields', and an empty list has none - the change makes the compiler agree with the literal reading",
+ "C08-10": "C08's reference is the AST, which the change corrupts consistently (C16 caught it at once)",
+ "C14-9": "C14 takes suppression levels from the library (the change is fourth-round C13-7 again; C13 caught it at once)",
+ "C16-9": "white-space-only lines shorter than the common indentation are not generated: the statement does not say whether they count towards it (textwrap.dedent says no, the implementation says yes), and the check takes no side",
+ "C16-10": "C16 observes the AST, not the request (C08 caught it at once)",
+})
+
+
 def main():
     rnd = int(sys.argv[1]) if len(sys.argv) > 1 else 2
     for sid in sorted(os.listdir("/verif/seeded")):
